@@ -42,7 +42,8 @@ def sym_lists(shape):
 
 def run_create_load(M, L, hostkeys, dh, client, banner_sw='OpenSSH_8.0'):
     """peer -> Policy.create -> Policy(policy_data=...)"""
-    kex = make_kex(M, {f: list(L[f]) for f in FIELDS}, host_keys=hostkeys, dh=dh)
+    # the tool reports/evaluates the server-to-client lists for both roles; the client-to-server lists are decoys
+    kex = make_kex(M, {f: list(L[f]) for f in FIELDS}, host_keys=hostkeys, dh=dh, c2s={'enc': ['decoy-cipher'], 'mac': ['decoy-mac'], 'comp': ['decoy-comp']})
     banner = M.banner.Banner((2, 0), banner_sw, None, True)
     js = TokenJson() if M.kind == 'instrumented' else None
     ctx = AE.patched(M.policy, json=js) if js else AE.patched(M.policy)
@@ -137,12 +138,17 @@ class Drift(Harness):
     prop, ob = PROP, 'O2'
     width = 64
 
-    def __init__(self, field, kind, n, pos=0, pos2=1):
-        self.field, self.kind, self.n, self.pos, self.pos2 = field, kind, n, pos, pos2
-        self.name = 'drift-%s-%s-n%d-p%d-%d' % (field, kind, n, pos, pos2)
+    EXTRA = {'ecdsa-sha2-nistp256': (256, '', 0), 'ssh-ed25519': (256, '', 0), 'ssh-rsa': (3072, '', 0), 'ssh-ed25519-cert-v01@openssh.com': (256, 'ssh-ed25519', 256)}
+
+    def __init__(self, field, kind, n, pos=0, pos2=1, extra=()):
+        self.field, self.kind, self.n, self.pos, self.pos2, self.extra = field, kind, n, pos, pos2, tuple(extra)
+        self.name = 'drift-%s-%s-n%d-p%d-%d%s' % (field, kind, n, pos, pos2, ('-extra(' + '+'.join(e.split('@')[0] for e in extra) + ')') if extra else '')
 
     def params(self):
-        return {'field': self.field, 'kind': self.kind, 'n': self.n, 'pos': self.pos, 'pos2': self.pos2}
+        return {'field': self.field, 'kind': self.kind, 'n': self.n, 'pos': self.pos, 'pos2': self.pos2, 'extra': list(self.extra)}
+
+    def more(self):
+        return {k: self.EXTRA[k] for k in self.extra}
 
     def inputs(self):
         shape = {f: (1,) for f in FIELDS}
@@ -155,7 +161,8 @@ class Drift(Harness):
     def perturbed(self, inp):
         """returns (lists, hostkeys, dh, precondition that B really differs from A in that attribute)"""
         L = {f: list(inp['L'][f]) for f in FIELDS}
-        hk = {RSA_CERT: (inp['hksz'], 'ssh-rsa', inp['casz'])}
+        hk = dict(self.more())
+        hk[RSA_CERT] = (inp['hksz'], 'ssh-rsa', inp['casz'])
         dh = {GEX: inp['dhsz']}
         pre = True
         f, k = self.field, self.kind
@@ -175,25 +182,26 @@ class Drift(Harness):
                 lst[self.pos], lst[self.pos2] = lst[self.pos2], lst[self.pos]
         elif f == 'hostkey-size':
             pre = s_not(inp['hksz2'] == inp['hksz'])
-            hk = {RSA_CERT: (inp['hksz2'], 'ssh-rsa', inp['casz'])}
+            hk[RSA_CERT] = (inp['hksz2'], 'ssh-rsa', inp['casz'])
         elif f == 'ca-size':
             pre = s_and(s_not(inp['casz2'] == inp['casz']), inp['casz'] > 0)
-            hk = {RSA_CERT: (inp['hksz'], 'ssh-rsa', inp['casz2'])}
+            hk[RSA_CERT] = (inp['hksz'], 'ssh-rsa', inp['casz2'])
         elif f == 'ca-type':
             pre = inp['casz'] > 0
-            hk = {RSA_CERT: (inp['hksz'], 'ssh-ed25519', inp['casz'])}
+            hk[RSA_CERT] = (inp['hksz'], 'ssh-ed25519', inp['casz'])
         elif f == 'dh-size':
             pre = s_not(inp['dhsz2'] == inp['dhsz'])
             dh = {GEX: inp['dhsz2']}
         return L, hk, dh, pre
 
     def run(self, M, inp):
-        hkA = {RSA_CERT: (inp['hksz'], 'ssh-rsa', inp['casz'])}
+        hkA = dict(self.more())
+        hkA[RSA_CERT] = (inp['hksz'], 'ssh-rsa', inp['casz'])
         kexA, banner, data, pol = run_create_load(M, inp['L'], hkA, {GEX: inp['dhsz']}, False)
         if isinstance(data, Exc) or isinstance(pol, Exc):
             return {'setup': data if isinstance(data, Exc) else pol}
         L, hk, dh, pre = self.perturbed(inp)
-        kexB = make_kex(M, L, host_keys=hk, dh=dh)
+        kexB = make_kex(M, L, host_keys=hk, dh=dh, c2s={'enc': ['other-decoy'], 'mac': ['other-decoy']})
         r = guarded(pol.evaluate, banner, kexB)
         if isinstance(r, Exc):
             return {'eval': r}
@@ -322,6 +330,9 @@ def tasks(tier):
                     T.append(Drift(f, 'swap', n, a, b))
     for f in ('hostkey-size', 'ca-size', 'ca-type', 'dh-size'):
         T.append(Drift(f, 'change', 1))
+        # several size entries: plain types sorting before and after the certificate type
+        T.append(Drift(f, 'change', 1, extra=('ecdsa-sha2-nistp256', 'ssh-rsa')))
+        T.append(Drift(f, 'change', 1, extra=('ssh-ed25519', 'ssh-ed25519-cert-v01@openssh.com')))
     for n, nopt, sizes in ([(1, 0, False), (1, 1, False), (2, 2, True), (2, 0, True)] if q else
                            [(1, 0, False), (1, 1, False), (2, 2, True), (2, 0, True), (3, 1, True), (2, 3, False), (3, 2, True)]):
         T.append(BuiltinShape(n, nopt, sizes))
@@ -334,7 +345,7 @@ def harness_by_name(name, params):
     if k.startswith('create-load'):
         return CreateLoadEval(params['shape'], params['hk'], params['dh'], params['client'])
     if k.startswith('drift'):
-        return Drift(params['field'], params['kind'], params['n'], params['pos'], params['pos2'])
+        return Drift(params['field'], params['kind'], params['n'], params['pos'], params['pos2'], params.get('extra', ()))
     if k.startswith('builtin-shape'):
         return BuiltinShape(params['n'], params['nopt'], params['sizes'])
     raise KeyError(name)
